@@ -1423,10 +1423,10 @@ func (f *frame) siteOrd(key string, pos token.Pos) int {
 				case *ssa.Go:
 					add(CalleeKey(i.Common()), i.Pos())
 				case *ssa.Send:
-					add("send "+lastField(chanField(i.Chan)), i.Pos())
+					add("send "+chanSiteName(i.Chan), i.Pos())
 				case *ssa.UnOp:
 					if i.Op == token.ARROW {
-						add("recv "+lastField(chanField(i.X)), i.Pos())
+						add("recv "+chanSiteName(i.X), i.Pos())
 					}
 				}
 			}
